@@ -206,7 +206,7 @@ def regen_keys(repo=None):
                     out.append((ks[0], vks[0] if vks else None, st))
             for fld in ("body", "orelse", "finalbody"):
                 sub = getattr(st, fld, None)
-                if sub and not (isinstance(st, ast.For) and fld == "body" and False):
+                if sub:
                     visit(sub, env)
             for h in getattr(st, "handlers", []) or []:
                 visit(h.body, env)
